@@ -356,21 +356,6 @@ func (p *wat2wasmWorker) buildNameSection() error {
 			importFuncCount++
 		}
 	}
-	for _, typ := range p.mWat.Types {
-		var localNameMap wasm.NameMap
-		for j, local := range typ.Type.Params {
-			if local.Name != "" {
-				localNameMap = append(localNameMap, &wasm.NameAssoc{
-					Index: wasm.Index(j),
-					Name:  local.Name,
-				})
-			}
-		}
-		localNames = append(localNames, &wasm.NameMapAssoc{
-			Index:   wasm.Index(importFuncCount),
-			NameMap: localNameMap,
-		})
-	}
 	for i, fn := range p.mWat.Funcs {
 		var localNameMap wasm.NameMap
 		for j, local := range fn.Type.Params {
